@@ -121,3 +121,9 @@ package markers
 //@           invariant forall j int :: 0 <= j && j < k ==> chainAt(err, j) != nil && !callres1(pred, chainAt(err, j))
 
 //@ type withMark invariant[C03,C12] forall i int :: 0 <= i && i < len(self.mark.types) ==> safeS(self.mark.types[i].FamilyName) && safeS(self.mark.types[i].Extension)
+
+// ---- C09: the mark layer continues with its cause ----
+//@ method (*withMark).SafeFormatError
+//@   props C09
+//@   requires p != nil
+//@   ensures result == self.cause
